@@ -40,6 +40,14 @@ HVALS = {
     "sec-websocket-key": {"ok": [KEY], "ok_case": [KEY2], "bad": [b""], "dup_ok_bad": [KEY, b""], "dup_bad_ok": [KEY2, KEY]},
     "sec-websocket-version": {"ok": [b"13"], "ok_case": [b"13"], "bad": [b"12"], "dup_ok_bad": [b"13", b"8"], "dup_bad_ok": [b"8", b"13"]},
 }
+# Sec-WebSocket-Version values around the only valid one: values that merely CONTAIN "13" (as a substring, a list member,
+# with a sign / leading zero / fraction), neighbours, empty.  Not part of the 6-state lattice (it would multiply it by 4);
+# swept on otherwise perfect handshakes in both layers, both carriers, both workers.
+VERSION_VALUES = [b"130", b"213", b"1.13", b"013", b"13.0", b"131", b"1313", b"13, 8", b"8, 13", b"13,13", b"+13", b"-13", b"0x13", b"13a", b"a13",
+                  b"1 3", b"31", b"14", b"12", b"3", b"1", b""]
+for _v in VERSION_VALUES:
+    HVALS["sec-websocket-version"]["v=" + _v.decode()] = [_v]
+VERSION_STATES = ["v=" + _v.decode() for _v in VERSION_VALUES]
 NAMES_CASE = {"connection": b"Connection", "upgrade": b"UPGRADE", "sec-websocket-key": b"Sec-WebSocket-Key", "sec-websocket-version": b"Sec-Websocket-VERSION"}
 
 
@@ -180,7 +188,10 @@ def gen_decisions(rng: random.Random) -> List[list]:
 
 
 CLOSINGS = [["client_first", 1000], ["client_first", 1001], ["client_first", 3000], ["client_first", None], ["app_first", None], ["app_first", 4001],
-            ["simultaneous", 1000, 3001], ["abrupt"], ["client_close_twice", 1000], ["bad_frame"]]
+            ["simultaneous", 1000, 3001], ["abrupt"], ["client_close_twice", 1000], ["bad_frame"],
+            ["client_first_gone", 1000], ["client_first_gone", 3000], ["client_first_gone", None]]
+# client_first_gone: the client sends its close frame and vanishes; the echo cannot be written, the failed write closes the
+# connection from inside the await of the echo (StreamClosed is handled re-entrantly).  Still a client-initiated close.
 # bad_frame: an unmasked frame with a reserved opcode: wsproto yields CloseConnection(1002) *without* changing its state
 # (model event `failed`); the statement does not name this order, so only model and code are compared
 # client_close_twice: a second close frame after the protocol has closed the stream (StreamClosed is delivered synchronously
@@ -252,7 +263,7 @@ def check_accept_headers(got: List[List[str]], exp: dict, key: Optional[str], le
 
 def expected_code(closing: list) -> Optional[List[int]]:
     k = closing[0]
-    if k == "client_first" or k == "client_close_twice":
+    if k in ("client_first", "client_close_twice", "client_first_gone"):
         return [closing[1] if closing[1] is not None else 1005]
     if k == "app_first":
         return [1000]
@@ -281,6 +292,8 @@ def direct_ops(case: dict) -> List[dict]:
     k = cl[0]
     if k == "client_first":
         ops.append({"in": "data", "data": close_frame(cl[1], 3)})
+    elif k == "client_first_gone":
+        ops.append({"in": "data", "data": close_frame(cl[1], 3), "echo_lost": True})
     elif k == "client_close_twice":
         ops.append({"in": "data", "data": close_frame(cl[1], 3)})
         ops.append({"in": "streamClosed"})
@@ -474,6 +487,9 @@ def e2e_wsrun(case: dict) -> dict:
     if cl[0] == "client_first":
         app.append(["recv_until_disconnect"])
         client = [["close", cl[1]], ["flush"], ["sleep", 0.1], ["eof"]]
+    elif cl[0] == "client_first_gone":
+        app.append(["recv_until_disconnect"])
+        client = [["close", cl[1]], ["fail_writes"], ["flush"], ["sleep", 0.1], ["reset"]]
     elif cl[0] == "app_first":
         app += [["send", dec_msgs(["close", cl[1]])[0]], ["recv_until_disconnect"]]
         client = [["sleep", 0.1], ["reply_close"], ["sleep", 0.1], ["eof"]]
@@ -613,6 +629,9 @@ def e2e_handshakes(rng: random.Random) -> List[dict]:
             out.append({"hclass": f"h1:{name}={st}", "carrier": "h1", "method": "GET", "version": "1.1", "headers": h1({name: st})})
     for st in ("absent", "bad", "dup_ok_bad", "dup_bad_ok"):
         out.append({"hclass": f"h2:version={st}", "carrier": "h2", "method": "CONNECT", "version": "2", "headers": h2({"sec-websocket-version": st})})
+    for st in VERSION_STATES:
+        out.append({"hclass": f"h1:sec-websocket-version={st}", "carrier": "h1", "method": "GET", "version": "1.1", "headers": h1({"sec-websocket-version": st})})
+        out.append({"hclass": f"h2:version={st}", "carrier": "h2", "method": "CONNECT", "version": "2", "headers": h2({"sec-websocket-version": st})})
     out.append({"hclass": "h1:POST", "carrier": "h1", "method": "POST", "version": "1.1", "headers": h1({})})
     out.append({"hclass": "h1:http1.0", "carrier": "h1", "method": "GET", "version": "1.0", "headers": h1({})})
     out.append({"hclass": "h2:GET", "carrier": "h2", "method": "GET", "version": "2", "headers": h2({}), "protocol": None})
@@ -647,6 +666,16 @@ def run(ctx: Ctx) -> None:
         if rng.random() < 0.03:
             hs.append(["sec-websocket-protocol", "caf\xe9"])
         dcases.append({"layer": "direct", "version": version, "headers": hs, "states": [st[n] for n in names], "decisions": gen_decisions(rng), "closing": rng.choice(CLOSINGS)})
+    # version values around 13 on otherwise perfect handshakes (plain and with odd-case names / duplicated with a valid one)
+    for version in ("1.1", "2"):
+        for vst in VERSION_STATES:
+            st = dict(okh) if version == "1.1" else {**{n: "absent" for n in names}, "sec-websocket-version": "ok"}
+            st["sec-websocket-version"] = vst
+            hs = build_headers(st, None, None, False)
+            dcases.append({"layer": "direct", "version": version, "headers": hs, "states": [st[n] for n in names], "decisions": [["accept", None, []]], "closing": ["abrupt"]})
+            # … and behind a valid occurrence (the last one counts)
+            hs2 = [["host", "x"], ["sec-websocket-version", "13"]] + hs[1:]
+            dcases.append({"layer": "direct", "version": version, "headers": hs2, "states": [st[n] for n in names] + ["after_13"], "decisions": [["accept", None, []]], "closing": ["abrupt"]})
     for version in ("1.1", "2"):
         st = dict(okh) if version == "1.1" else {**{n: "absent" for n in names}, "sec-websocket-version": "ok"}
         for cl in CLOSINGS:
